@@ -1145,6 +1145,75 @@ impl BuilderArea {
             Some((id, t, e))
         };
         let ans = match ws {
+            ["deepfmt", d] => {
+                // C19, totality on deep trees: a chain of `d` nested nodes over one token is owned (built, and later dropped -- the
+                // crate's tear-down is recursive) by a thread with a large stack and *formatted* on a thread with an ordinary 2 MiB
+                // stack.  Output goes to a counting sink (the recursive debug form of a chain is quadratic in its depth).
+                let d: usize = d.parse().unwrap_or(0);
+                cx.count("fmt.deep");
+                struct Count {
+                    bytes: u64,
+                    lines: u64,
+                }
+                impl std::fmt::Write for Count {
+                    fn write_str(&mut self, s: &str) -> std::fmt::Result {
+                        self.bytes += s.len() as u64;
+                        self.lines += s.bytes().filter(|b| *b == b'\n').count() as u64;
+                        Ok(())
+                    }
+                }
+                let res = std::thread::Builder::new()
+                    .stack_size(1 << 30)
+                    .spawn(move || {
+                        let mut b: cstree::build::GreenNodeBuilder<'static, 'static, K> = cstree::build::GreenNodeBuilder::new();
+                        for _ in 0..d {
+                            b.start_node(K(0));
+                        }
+                        b.token(K(10), "a");
+                        for _ in 0..d {
+                            b.finish_node();
+                        }
+                        let (g, cache) = b.finish();
+                        let interner = cache.unwrap().into_interner().unwrap();
+                        let root: cstree::syntax::SyntaxNode<K> = cstree::syntax::SyntaxNode::new_root(g);
+                        let node_line = root.debug(&interner, false).len() as u64 + 1;
+                        let tok = root.first_token().unwrap().clone();
+                        let tok_line = tok.debug(&interner).len() as u64 + 1;
+                        drop(tok);
+                        let out = std::thread::scope(|s| {
+                            std::thread::Builder::new()
+                                .stack_size(2 << 20)
+                                .spawn_scoped(s, || {
+                                    let mut c = Count { bytes: 0, lines: 0 };
+                                    let r1 = root.write_debug(&interner, &mut c, true).is_ok();
+                                    let mut c2 = Count { bytes: 0, lines: 0 };
+                                    let r2 = root.write_display(&interner, &mut c2).is_ok();
+                                    (r1 && r2, c.lines, c.bytes, c2.bytes)
+                                })
+                                .unwrap()
+                                .join()
+                        });
+                        drop(root);
+                        (out, node_line, tok_line)
+                    })
+                    .unwrap()
+                    .join();
+                match res {
+                    Ok((Ok((ok, lines, bytes, disp)), node_line, tok_line)) => {
+                        let d64 = d as u64;
+                        // level l is indented by 2 l spaces; the token sits at level d
+                        let want_bytes = d64 * node_line + d64 * (d64.saturating_sub(1)) + tok_line + 2 * d64;
+                        if !ok || lines != d64 + 1 || bytes != want_bytes || disp != 1 {
+                            cx.fail("C19", format!("deep chain of {} nodes: recursive debug wrote {} lines / {} bytes (expected {} / {}), display wrote {} bytes (expected 1), ok={}", d, lines, bytes, d64 + 1, want_bytes, disp, ok));
+                        }
+                        "ok".into()
+                    }
+                    _ => {
+                        cx.fail("C19", format!("formatting a chain of {} nested nodes panicked", d));
+                        "ok".into()
+                    }
+                }
+            }
             ["fmt", eref, what] => {
                 let Some((id, t, e)) = get(self, eref) else { return Some("bad-op".into()) };
                 let snap = self.red.trees[t].snap.clone();
